@@ -4,13 +4,14 @@ import verif
 
 
 def differs(m):
-    return {"flip": m["pos"] < m["size"], "truncate": m["len"] < m["size"], "extend": m["len"] > 0, "remove": True,
+    return {"flip": m["pos"] < m["size"], "flipnow": m["pos"] < m["size"], "truncate": m["len"] < m["size"], "extend": m["len"] > 0, "remove": True,
             "touch": False, "rewrite": False}[m["kind"]]
 
 
 def classify(r):
     exp = sorted({m["file"] for m in r["muts"] if differs(m)})
     kinds = "+".join(sorted({m["kind"] for m in r["muts"]})) or "none"
+    kinds = "overwrite-%s/%s" % (r.get("overwrite", "always"), kinds)
     if sorted(r["differs_actual"]) != exp:
         return None
     rep = sorted(r["reported"])
@@ -35,8 +36,8 @@ def run(ctx):
         keys.setdefault(k, []).append(r)
     for k, rs in sorted(keys.items()):
         r = rs[0]
-        ctx.violate(k, "VerifyFiles after tampering %s (snapshot '%s'): reported=%s, fail-fast error=%s (%s); %d records of this class"
-                    % (["%s %s pos=%d len=%d size=%d" % (m["file"], m["kind"], m["pos"], m["len"], m["size"]) for m in r["muts"]], r["set"],
+        ctx.violate(k, "VerifyFiles after a restore with --overwrite %s and tampering %s (snapshot '%s'): reported=%s, fail-fast error=%s (%s); %d records of this class"
+                    % (r.get("overwrite"), ["%s %s pos=%d len=%d size=%d" % (m["file"], m["kind"], m["pos"], m["len"], m["size"]) for m in r["muts"]], r["set"],
                        r["reported"], r["failfast_err"], r["failfast_msg"], len(rs)), r)
     res = ctx.go_results[-1]
     cov = {"evaluations": n, "distinct_nontrivial": res["distinct_nontrivial"], "rule": res["rule"],
@@ -46,4 +47,5 @@ def run(ctx):
                         ["Fn_Verify.tla: a tampering makes a file differ iff flip / truncate below size / extend by > 0 / remove; the set of files VerifyFiles reports (collecting Error callback) must equal that set and the default fail-fast run must fail iff the set is non-empty; TLC evaluates RecOK on every record; the harness' own byte comparison must agree with the spec's Differs",
                          "files <= 3.2 KB: every byte position (single-bit change) and every truncation length in the thorough tier, 64 seeded positions + blob boundaries in the quick tier; large files (zero chunk, 30 blobs): blob boundaries +-1, first/last/middle, seeded positions",
                          "tampering keeps the mtime (except 'touch'/'rewrite' controls), so nothing but the content distinguishes the file",
-                         "fresh restore into an empty directory (every file is 'restored', none skipped)"])
+                         "fresh restore into an empty directory (every file is 'restored', none skipped) under each of --overwrite always / if-changed / if-newer / never (modes rotate over the tamperings; content-only changes additionally always run under if-changed); the demand does not depend on the mode",
+                         "'flip' resets the mtime to the snapshot's mtime (what restore had set), 'flipnow' leaves the new mtime"])
